@@ -12,6 +12,9 @@ extern void dispatch_async_and_wait_f(dispatch_queue_t, void *, dispatch_functio
 extern void dispatch_async_and_wait(dispatch_queue_t, dispatch_block_t);
 extern void dispatch_queue_set_width(dispatch_queue_t dq, long width);
 extern void *dispatch_workloop_create(const char *label);
+#ifndef LW_NEWQ   // harness/c01_lanewords.c wraps every queue creation of these scenarios to record the words of the new queue
+#define LW_NEWQ(expr) (expr)
+#endif
 
 static uint64_t rng_s;
 static uint64_t rnd(void) { uint64_t x = rng_s; x ^= x << 13; x ^= x >> 7; x ^= x << 17; return rng_s = x; }
@@ -137,10 +140,10 @@ static qinfo_t *mkq(const char *name, int serial, dispatch_queue_t target, qinfo
 	// how: 0 create_with_target, 1 create then set_target (active, legacy retarget), 2 inactive + set_target + activate
 	qinfo_t *qi = (qinfo_t *)calloc(1, sizeof *qi); qi->serial = serial; qi->bottom = bottom; qi->name = name;
 	dispatch_queue_attr_t a = serial ? DISPATCH_QUEUE_SERIAL : DISPATCH_QUEUE_CONCURRENT;
-	if (!target) qi->q = dispatch_queue_create(name, a);
-	else if (how == 0) qi->q = dispatch_queue_create_with_target(name, a, target);
-	else if (how == 1) { qi->q = dispatch_queue_create(name, a); dispatch_set_target_queue(qi->q, target); }
-	else { qi->q = dispatch_queue_create(name, dispatch_queue_attr_make_initially_inactive(a)); dispatch_set_target_queue(qi->q, target); dispatch_activate(qi->q); }
+	if (!target) qi->q = LW_NEWQ(dispatch_queue_create(name, a));
+	else if (how == 0) qi->q = LW_NEWQ(dispatch_queue_create_with_target(name, a, target));
+	else if (how == 1) { qi->q = LW_NEWQ(dispatch_queue_create(name, a)); dispatch_set_target_queue(qi->q, target); }
+	else { qi->q = LW_NEWQ(dispatch_queue_create(name, dispatch_queue_attr_make_initially_inactive(a))); dispatch_set_target_queue(qi->q, target); dispatch_activate(qi->q); }
 	return qi;
 }
 
@@ -157,7 +160,7 @@ static void late_barrier(void *c) { (void)c; if (reader_in) barrier_saw_reader =
 static void *sync_reader_thread(void *q) { dispatch_sync_f((dispatch_queue_t)q, NULL, slow_reader); return NULL; }
 static void scn_width_exhaustion(int flood) {
 	cur_scn = "width_exhaustion"; reader_in = barrier_saw_reader = 0;
-	dispatch_queue_t q = dispatch_queue_create("wx", DISPATCH_QUEUE_CONCURRENT);
+	dispatch_queue_t q = LW_NEWQ(dispatch_queue_create("wx", DISPATCH_QUEUE_CONCURRENT));
 	gate = dispatch_semaphore_create(0);
 	dispatch_barrier_async_f(q, NULL, gate_wait);
 	for (int i = 0; i < flood; i++) dispatch_async_f(q, NULL, noop);
@@ -175,8 +178,8 @@ static void busy_fn(void *c) { (void)c; usleep(150000); atomic_fetch_add(&progre
 static void *sync_thread(void *q) { dispatch_sync_f((dispatch_queue_t)q, NULL, noop); atomic_fetch_add(&progress, 1); return NULL; }
 static void scn_handoff_to_concurrent_target(void) {
 	cur_scn = "handoff_to_concurrent_target"; atomic_store(&after_cnt, 0);
-	dispatch_queue_t T = dispatch_queue_create("hT", DISPATCH_QUEUE_CONCURRENT);
-	dispatch_queue_t Q = dispatch_queue_create_with_target("hQ", DISPATCH_QUEUE_SERIAL, T);
+	dispatch_queue_t T = LW_NEWQ(dispatch_queue_create("hT", DISPATCH_QUEUE_CONCURRENT));
+	dispatch_queue_t Q = LW_NEWQ(dispatch_queue_create_with_target("hQ", DISPATCH_QUEUE_SERIAL, T));
 	dispatch_async_f(Q, NULL, busy_fn); usleep(20000);
 	pthread_t t; pthread_create(&t, NULL, sync_thread, Q); usleep(40000);
 	dispatch_barrier_async_f(T, NULL, busy_fn);
@@ -232,7 +235,7 @@ int main(int argc, char **argv) {
 		run_mix(strdup(nm), qs, 5, 6, 120 * scale, API_ALL, sizeof API_ALL / sizeof *API_ALL, 5);
 		run_mix(strdup(nm), qs + 2, 3, 6, 200 * scale, API_SYNCISH, sizeof API_SYNCISH / sizeof *API_SYNCISH, 3); }
 	if (WANT("hierarchy_workloop")) {
-		qinfo_t *T = (qinfo_t *)calloc(1, sizeof *T); T->serial = 1; T->name = "WL"; T->q = (dispatch_queue_t)dispatch_workloop_create("WL"); T->bottom = T;
+		qinfo_t *T = (qinfo_t *)calloc(1, sizeof *T); T->serial = 1; T->name = "WL"; T->q = (dispatch_queue_t)LW_NEWQ(dispatch_workloop_create("WL")); T->bottom = T;
 		qinfo_t *A = mkq("wA", 1, T->q, T, 0), *B = mkq("wB", 0, T->q, T, 0), *C = mkq("wC", 1, A->q, T, 0);
 		qinfo_t *qs[] = { A, B, C };
 		run_mix("hierarchy_workloop", qs, 3, 6, 120 * scale, API_ALL, sizeof API_ALL / sizeof *API_ALL, 5);
